@@ -24,6 +24,45 @@ theorem marks_on_boundary (src : List Char) (m : Mark) (hm : m ∈ mkMarks src) 
   obtain ⟨a, b, hab, ho, _⟩ := mkMarks_sound src m hm
   exact ⟨b, by rw [hab, ho]; exact sliceFrom_append a b⟩
 
+/-- Every mark records the specification's own counts at its offset `p`:
+    line = 1 + #{ j < p | line ending at j }, column = #{ characters starting at k < p after the last
+    line ending below p }. -/
+theorem marks_sound (src : List Char) (m : Mark) (hm : m ∈ mkMarks src) :
+    m.line = 1 + (List.range m.offset).countP (lineEnd src) ∧
+    m.column = (List.range m.offset).countP
+      (fun k => startsAt src k && (List.range m.offset).all fun j => j < k || !lineEnd src j) := by
+  obtain ⟨a, b, _, ho, hst⟩ := mkMarks_sound src m hm
+  rw [← ho, runSt_eq_counts] at hst
+  have h1 := congrArg Prod.fst hst
+  have h2 := congrArg Prod.snd hst
+  simp only [ite_self, Nat.zero_add] at h1 h2
+  exact ⟨h1, h2⟩
+
+/-- a line ending at byte `j`, exhibited as a split of the text -/
+theorem lineEnd_split (src : List Char) (j : Nat) (h : lineEnd src j = true) :
+    ∃ a ch b, src = a ++ ch :: b ∧ byteLen a = j ∧ isEnd ch b.head? := by
+  induction src generalizing j with
+  | nil => simp [lineEnd_nil] at h
+  | cons ch r ih =>
+    by_cases h0 : j = 0
+    · subst h0
+      rw [lineEnd_cons_zero] at h
+      exact ⟨[], ch, r, rfl, rfl, by simpa using h⟩
+    · by_cases h1 : j < ch.utf8Size
+      · rw [lineEnd_cons_mid ch r j (by omega) h1] at h; exact absurd h (by simp)
+      · obtain ⟨k, rfl⟩ : ∃ k, j = ch.utf8Size + k := ⟨j - ch.utf8Size, by omega⟩
+        rw [lineEnd_cons_add] at h
+        obtain ⟨a, c, b, hab, hl, he⟩ := ih k h
+        exact ⟨ch :: a, c, b, by simp [hab], by simp [byteLen, hl], he⟩
+
+/-- The byte after every line ending carries a mark (every line start is a mark), so the mark
+    found for `o + 1` is never separated from `o` by a line ending. -/
+theorem marks_cover (src : List Char) (j : Nat) (h : lineEnd src j = true) :
+    ∃ m ∈ mkMarks src, m.offset = j + 1 := by
+  obtain ⟨a, ch, b, hab, hl, he⟩ := lineEnd_split src j h
+  obtain ⟨m, hm, ho⟩ := mkMarks_cover a ch b he
+  exact ⟨m, by rw [hab]; exact hm, by omega⟩
+
 /-- THE property: for every text and every byte offset, `get_position` does not panic and returns
     exactly the line and the column of the direct (counting) definition. -/
 theorem getPosition_spec (src : List Char) (o : Nat) :
